@@ -231,13 +231,13 @@ PROPS["C18"] = {
     ],
     "rule": "cases are (parameter type, pattern x, argument y, relation, extra In alternatives): 43 parameter types (all int/uint widths, floats, string, "
             "bool, structs incl. unexported fields and float/slice/map fields, arrays, slices, maps, pointers incl. ** and rings, interface{} and error "
-            "holding those, funcs); values come from boundary-biased value codes; y is independent, a deep copy of x (distinct storage) or the very "
-            "same value; nil patterns are given typed and untyped. Oracle: Go ==/DeepEqual/pointee/identity as the statement lists them, symmetry, "
+            "holding those, funcs); values come from boundary-biased value codes; y is independent, a deep copy of x (distinct storage), the very "
+            "same value, or a deep copy with one leaf changed minimally (integer +-1, adjacent float, one character); nil patterns are given typed and untyped. Oracle: Go ==/DeepEqual/pointee/identity as the statement lists them, symmetry, "
             "Any, In == union of Equals, stable on re-evaluation, no panic. NaN, mixed signed zeros and interfaces of different dynamic types are "
             "generated and counted but not judged against Go equality. Non-trivial: a judged pair not built from two zero values; distinct by "
             "(type, x code, y code, relation, nil form).",
     "assumptions": ["arguments are presented to Eval as reflect.Values of the declared parameter type, as goom's own matcher does"],
-    "floors": [("pairs", "equal-pairs", 2000), ("pairs", "unequal-pairs", 2000), ("pairs", "in-with->=2-alternatives", 2000)],
+    "floors": [("pairs", "equal-pairs", 2000), ("pairs", "unequal-pairs", 2000), ("pairs", "in-with->=2-alternatives", 2000), ("pairs", "neighbour-pairs", 2000)],
 }
 
 PROPS["C10"] = {
